@@ -31,7 +31,7 @@ func runClientConnRT(t *testing.T, seed int64, log *traceLog) {
 	caddr := &net.UDPAddr{IP: net.IPv4(10, 0, 0, 11).To4(), Port: 40001}
 	sconn, cconn := mn.MustListen(saddr), mn.MustListen(caddr)
 	srv := &ccServer{conn: sconn, client: caddr, log: log, rng: rng, relayed: &net.UDPAddr{IP: net.IPv4(10, 0, 0, 1).To4(), Port: 50001}}
-	const writers = 16
+	writers := int(envInt("VERIF_RT_WRITERS", 16))
 	rounds := int(envInt("VERIF_RT_ROUNDS", 60))
 	for i := 0; i < writers*rounds; i++ {
 		srv.peers = append(srv.peers, ccPeer{fmt.Sprintf("P%d", i), 1, &net.UDPAddr{IP: net.IPv4(10, byte(2+i/40000), byte((i/200)%200), byte(1+i%200)).To4(), Port: 5001}})
